@@ -321,6 +321,7 @@ class ModuleNormalizer:
                 if not self._inline_calls(q, node, cls):
                     break
             self._drop_unused_nested(q, node)
+            self._loops_to_comprehensions(q, node)
             self._inline_aliases(q, node)
 
     # ---- resolving a call to a new helper
@@ -483,6 +484,41 @@ class ModuleNormalizer:
                                 stmts.append(ast.Pass())
                             self.log.append(f"{q}: removed inlined nested helper {s_.name}")
 
+    def _loops_to_comprehensions(self, q: str, node):
+        """`x = []` / `for t in it: [if c:] x.append(e)`  ->  `x = [e for t in it if c]` when the loop variable is
+        not a local of the reference function (the loop is new)"""
+        frozen = set(self.fn.get(q, []))
+        for parent in [node] + [n for n in _own_nodes(node) if not isinstance(n, (ast.FunctionDef, ast.AsyncFunctionDef, ast.ClassDef, ast.Lambda))]:
+            for field in ("body", "orelse", "finalbody"):
+                stmts = getattr(parent, field, None)
+                if not isinstance(stmts, list):
+                    continue
+                i = 0
+                while i + 1 < len(stmts):
+                    a, l = stmts[i], stmts[i + 1]
+                    i += 1
+                    if not (isinstance(a, ast.Assign) and len(a.targets) == 1 and isinstance(a.targets[0], ast.Name) and isinstance(a.value, ast.List) and not a.value.elts):
+                        continue
+                    if not (isinstance(l, ast.For) and not l.orelse and len(l.body) == 1):
+                        continue
+                    tv = {n.id for n in ast.walk(l.target) if isinstance(n, ast.Name)}
+                    if tv & frozen:
+                        continue
+                    x = a.targets[0].id
+                    inner = l.body[0]
+                    cond = None
+                    if isinstance(inner, ast.If) and not inner.orelse and len(inner.body) == 1:
+                        cond, inner = inner.test, inner.body[0]
+                    if not (isinstance(inner, ast.Expr) and isinstance(inner.value, ast.Call) and isinstance(inner.value.func, ast.Attribute) and inner.value.func.attr == "append" and isinstance(inner.value.func.value, ast.Name) and inner.value.func.value.id == x and len(inner.value.args) == 1):
+                        continue
+                    elt = inner.value.args[0]
+                    if x in _names_used(elt) or (cond is not None and x in _names_used(cond)) or x in _names_used(l.iter):
+                        continue
+                    comp = ast.ListComp(elt=elt, generators=[ast.comprehension(target=l.target, iter=l.iter, ifs=[cond] if cond is not None else [], is_async=0)])
+                    new = _relocate(ast.Assign(targets=[ast.Name(id=x, ctx=ast.Store())], value=comp), a)
+                    stmts[i - 1 : i + 1] = [new]
+                    self.log.append(f"{q}: loop appending to {x} rewritten as a comprehension")
+
     def _uses_precede_stores(self, node, v: str, paths: List[str]) -> bool:
         order = {id(n): k for k, n in enumerate(_preorder(node))}
         parents = {}
@@ -501,8 +537,21 @@ class ModuleNormalizer:
         stores = [n for n in ast.walk(node) if isinstance(n, ast.Attribute) and isinstance(n.ctx, (ast.Store, ast.Del)) and ast.unparse(n) in paths]
         if not uses or not stores:
             return True
+        def stmt_of(n):
+            x = n
+            while x is not None and not isinstance(x, ast.stmt):
+                x = parents.get(id(x))
+            return x
+        # a use in the right-hand side of the storing statement itself is evaluated before the store
+        ends = []
+        for s_ in stores:
+            st = stmt_of(s_)
+            ends.append(max(order[id(n)] for n in ast.walk(st)) if st is not None else order[id(s_)])
+        first_end = min(ends)
         first_store = min(order[id(s_)] for s_ in stores)
-        if any(order[id(u)] > first_store for u in uses):
+        first_stmt = stmt_of(min(stores, key=lambda s_: order[id(s_)]))
+        inside_first = {id(n) for n in ast.walk(first_stmt)} if first_stmt is not None else set()
+        if any(order[id(u)] > first_store and id(u) not in inside_first for u in uses):
             return False
         return not any(loops_of(u) & loops_of(s_) for u in uses for s_ in stores)
 
@@ -560,7 +609,16 @@ class ModuleNormalizer:
                             return True
                     if v in frozen or v in params or len(stores.get(v, [])) != 1:
                         continue
-                    if not _simple_arg(e) or isinstance(e, ast.Constant):
+                    if not _simple_arg(e) and not isinstance(e, ast.Constant):
+                        # single-use temporary consumed by the very next statement
+                        loads = [n for n in ast.walk(node) if isinstance(n, ast.Name) and n.id == v and isinstance(n.ctx, ast.Load)]
+                        if len(loads) == 1 and i + 1 < len(stmts) and any(n is loads[0] for n in ast.walk(stmts[i + 1])) and not isinstance(stmts[i + 1], (ast.For, ast.While, ast.If, ast.With, ast.Try, ast.FunctionDef)) and not _inside_nested_def(stmts[i + 1], loads[0]):
+                            stmts[i + 1] = _Subst({v: e}).visit(stmts[i + 1])
+                            del stmts[i]
+                            self.log.append(f"{q}: inlined single-use temporary {v}")
+                            return True
+                        continue
+                    if isinstance(e, ast.Constant):
                         continue
                     if isinstance(e, ast.Name) and (len(stores.get(e.id, [])) > 1):
                         continue
